@@ -1,6 +1,7 @@
 package main
 
 import (
+	"net"
 	"sync/atomic"
 	"bytes"
 	"context"
@@ -28,6 +29,9 @@ import (
 // op:   M:<max version> then one attack
 //         C:<hex>            the attacker's connection sends these bytes (several C: tokens = several writes)
 //         Z:<n>              the attacker sends a well-formed QUERY whose text is n bytes long
+//         T:<silent|partial|garbage>   the proxy serves its clients over TLS; the attacker connects and sends nothing / the first
+//                            bytes of a TLS record / bytes that are not TLS, and stays connected
+//         W:<n>              the attacker pipelines n forwarded queries with large answers, never reads one, and disconnects
 //         B:<kind>[:<arg>]   the attacker sends well-formed requests; the backend answers them in a hostile way
 //         L:<kind>           the backend answers the proxy's own system.local / system.peers queries badly and
 //                            the control connection is dropped so that the proxy has to ask again
@@ -132,7 +136,8 @@ func runHostileChild(op string) (out string) {
 			attack = append(attack, t)
 		}
 	}
-	env, err := e2e.Start(e2e.Options{Hosts: 2, MaxVersion: max, Version: primitive.ProtocolVersion4, BackendMax: primitive.ProtocolVersionDse2,
+	tlsAttack := len(attack) > 0 && strings.HasPrefix(attack[0], "T:")
+	env, err := e2e.Start(e2e.Options{Hosts: 2, MaxVersion: max, Version: primitive.ProtocolVersion4, BackendMax: primitive.ProtocolVersionDse2, TLS: tlsAttack,
 		ReconnectBase: 15 * time.Millisecond, ReconnectMax: 40 * time.Millisecond,
 		HeartBeat: 120 * time.Millisecond, IdleTimeout: 500 * time.Millisecond}) // a backend that stops answering is detected by the idle timeout
 	if err != nil {
@@ -143,6 +148,9 @@ func runHostileChild(op string) (out string) {
 	env.Cluster.Handler = func(rq *fakecass.Request) fakecass.Response {
 		if isCanary(rq) {
 			return fakecass.Response{Kind: fakecass.RespMsg, Msg: canaryRows()}
+		}
+		if bytes.Contains(rq.RawBody, []byte("attackbig")) {
+			return fakecass.Response{Kind: fakecass.RespMsg, Msg: rowsWith(strings.Repeat("x", 8000))}
 		}
 		if backendAttack != nil {
 			if r, ok := backendAttack(rq); ok {
@@ -169,6 +177,25 @@ func runHostileChild(op string) (out string) {
 	var att []string
 	switch {
 	case len(attack) == 0:
+	case tlsAttack:
+		// the attacker holds its connection open across the canary checks that follow
+		raw, derr := net.DialTimeout("tcp", env.Addr, 2*time.Second)
+		if derr != nil {
+			att = []string{"dial-error"}
+			break
+		}
+		defer raw.Close()
+		switch attack[0][2:] {
+		case "partial":
+			_, _ = raw.Write([]byte{0x16, 0x03, 0x01, 0x02})
+		case "garbage":
+			_, _ = raw.Write([]byte("GET / HTTP/1.0\r\n\r\n"))
+		}
+		time.Sleep(150 * time.Millisecond)
+		att = []string{"held"}
+	case strings.HasPrefix(attack[0], "W:"):
+		n, _ := strconv.Atoi(attack[0][2:])
+		att = slowReaderAttack(env, cv, n)
 	case strings.HasPrefix(attack[0], "C:") || strings.HasPrefix(attack[0], "Z:"):
 		att = clientAttack(env, attack)
 	case strings.HasPrefix(attack[0], "B:"):
@@ -192,6 +219,26 @@ func runHostileChild(op string) (out string) {
 		res = "late-" + c2
 	}
 	return "att=" + strings.Join(att, ",") + " canary=" + res
+}
+
+// slowReaderAttack: a client that asks for a lot and never reads, then goes away.
+func slowReaderAttack(env *e2e.Env, v primitive.ProtocolVersion, n int) []string {
+	cl, err := env.Dial(v, "")
+	if err != nil {
+		return []string{"dial-error"}
+	}
+	sent := 0
+	for i := 0; i < n; i++ {
+		b, err := cl.Encode(int16(i%30000+1), &message.Query{Query: "SELECT v FROM ks.attackbig", Options: &message.QueryOptions{Consistency: primitive.ConsistencyLevelOne}}, nil)
+		if err != nil || cl.WriteBytes(b) != nil {
+			break
+		}
+		sent++
+	}
+	time.Sleep(400 * time.Millisecond)
+	cl.Close()
+	time.Sleep(100 * time.Millisecond)
+	return []string{fmt.Sprintf("sent-%d", sent)}
 }
 
 func clientAttack(env *e2e.Env, attack []string) []string {
@@ -567,6 +614,7 @@ func genHostile(e *emitter, r *rng.R, n int, tier string) {
 	for _, z := range []int{1 << 16, 1 << 20, 16<<20 - 64} {
 		ops = append(ops, fmt.Sprintf("M:4 Z:%d", z))
 	}
+	ops = append(ops, "M:4 W:3000", "M:4 W:6000", "M:4 T:silent", "M:4 T:partial", "M:4 T:garbage")
 	// 3. hostile backends
 	for _, k := range []string{"wrongstream:1000", "wrongstream:-1", "wrongstream:1", "dup", "shorterr:0", "shorterr:1", "shorterr:3", "shorterr:4", "shorterr:5", "shorterr:7",
 		"errbody:00002500", "errbody:0000250000", "errbody:000025000000", "errbody:0000250000000010abab", "errbody:00001000000000", "errbody:000011000000", "errbody:0000120000000001", "errbody:00001300",
